@@ -410,6 +410,8 @@ var skipInitPkgs = map[string]bool{
 	"internal/bytealg": true, "vendor/golang.org/x/net/http2/hpack": true, "hash/crc32": true,
 	"go.uber.org/automaxprocs": true, "go.uber.org/automaxprocs/maxprocs": true,
 	"fmt": true, "sync": true, "testing": true, "flag": false,
+	"net/netip": true, "unique": true, "net/url": true, "crypto/rand": true, "crypto/internal/boring": true, "internal/abi": true,
+	"net/textproto": true, "mime/multipart": true, "compress/flate": true, "compress/gzip": true, "go.opentelemetry.io/otel": true,
 }
 
 func (e *Engine) ensureInit(g *Goroutine, pkg *ssa.Package) {
@@ -438,10 +440,58 @@ func (e *Engine) ensureInit(g *Goroutine, pkg *ssa.Package) {
 		}
 	}
 	initFn := pkg.Func("init")
-	if initFn == nil || len(initFn.Blocks) == 0 || skip {
+	if initFn == nil || len(initFn.Blocks) == 0 {
+		return
+	}
+	if skip {
+		e.lightInit(initFn)
 		return
 	}
 	e.callNestedRaw(g, &Closure{Fn: initFn}, nil, true)
+}
+
+// lightInit applies only the constant / function-valued initialisers of a package whose
+// initialiser is otherwise not run (skip_init): `var x int32 = 5`, `var f funcType = someFunc`.
+func (e *Engine) lightInit(initFn *ssa.Function) {
+	for _, b := range initFn.Blocks {
+		for _, in := range b.Instrs {
+			st, ok := in.(*ssa.Store)
+			if !ok {
+				continue
+			}
+			gl, ok := st.Addr.(*ssa.Global)
+			if !ok {
+				continue
+			}
+			if _, isAgg := gl.Type().(*types.Pointer).Elem().Underlying().(*types.Struct); isAgg {
+				continue
+			}
+			val := st.Val
+			if ct, ok := val.(*ssa.ChangeType); ok {
+				val = ct.X
+			}
+			var v Value
+			switch x := val.(type) {
+			case *ssa.Const:
+				if isAggregate(x.Type()) {
+					continue
+				}
+				v = e.constValue(x)
+			case *ssa.Function:
+				v = &Closure{Fn: x}
+			default:
+				continue
+			}
+			o := e.p.globals[gl]
+			if o == nil {
+				o = e.allocGlobal(gl)
+				e.p.globals[gl] = o
+			}
+			if len(o.Cells) == 1 {
+				o.Cells[0] = v
+			}
+		}
+	}
 }
 
 // ---------- nested synchronous calls (used by intrinsics and init) ----------
